@@ -319,7 +319,12 @@ public:
 
 	/*! Wait till writer thread has finished.
 		 \return 0 on success */
-	int join() { return _pmodel != pm_coro ? AsyncSocket<f8String>::join() : -1; }
+	int join()
+	{
+		if (_pmodel == pm_pipeline)
+			_callback_thread.join(); // it works on the session and the connection: gone before either is torn down
+		return _pmodel != pm_coro ? AsyncSocket<f8String>::join() : -1;
+	}
 
 	/// Calculate the length of the Fix message preamble, e.g. "8=FIX.4.4^A9=".
 	F8API void set_preamble_sz();
